@@ -50,6 +50,8 @@ def cases(tier, seed):
             if not mix and c != f:
                 continue
             yield {"kind": "softmax", "n": n, "f": f, "c": c, "mix": mix, "batch": b, "seed": rnd.randrange(10**6)}
+    for nl, shape in ((20, [60000]), (64, [300, 70]), (5, [250000]), (20, [1100, 1000] if tier != "quick" else [700, 100])):
+        yield {"kind": "poly_many", "num_locs": nl, "shape": shape, "seed": rnd.randrange(10**6)}
     nchunks = 4 if tier == "quick" else 40
     for c in range(nchunks):
         yield {"kind": "logcdf", "chunk": c, "nchunks": nchunks, "seed": rnd.randrange(10**6)}
@@ -145,7 +147,7 @@ def run_case(case, ctx):
 
 
 def _dispatch(case, ctx, g):
-    return {"poly": _poly, "lik": _lik, "bernoulli": _bern, "logcdf": _logcdf, "truncation": _trunc, "softmax": _softmax}[case["kind"]](case, ctx, g)
+    return {"poly": _poly, "poly_many": _poly_many, "lik": _lik, "bernoulli": _bern, "logcdf": _logcdf, "truncation": _trunc, "softmax": _softmax}[case["kind"]](case, ctx, g)
 
 
 def _mv(case, g, shape):
@@ -178,6 +180,30 @@ def _mkdist(kind, m, v):
     corr = 0.3 * torch.ones(m.shape[-1], m.shape[-1]) + 0.7 * torch.eye(m.shape[-1])
     C = sd.unsqueeze(-1) * corr * sd.unsqueeze(-2)
     return MVN(m, C)
+
+
+def _poly_many(case, ctx, g):
+    """very many Gaussians integrated in ONE call (a whole data set's marginals: tens of thousands x num_locs evaluations):
+    central moments up to degree 4 and E x, E x^2 in closed form, vectorised"""
+    import torch
+
+    from gpytorch import settings as S
+    from gpytorch.utils.quadrature import GaussHermiteQuadrature1D as Q
+
+    nl, shape = case["num_locs"], case["shape"]
+    m = torch.randn(*shape, generator=g, dtype=torch.float64) * 2
+    v = torch.rand(*shape, generator=g, dtype=torch.float64) * 3 + 0.05
+    with S.num_gauss_hermite_locs(nl):
+        q = Q()
+    dist = torch.distributions.Normal(m, v.sqrt())
+    cls = f"many:n{nl}:{m.numel()}"
+    ctx.close("poly_exact", q(lambda x: torch.ones_like(x), dist), torch.ones_like(m), (1e-12, 0.0), cls=cls + ":deg0")
+    ctx.close("poly_exact", q(lambda x: x, dist), m, (1e-10, 1e-10), cls=cls + ":deg1")
+    ctx.close("poly_exact", q(lambda x: x * x, dist), m * m + v, (1e-10, 1e-10), cls=cls + ":deg2")
+    ctx.close("poly_exact", q(lambda x: (x - m) ** 3, dist), torch.zeros_like(m), (1e-9, 0.0), cls=cls + ":deg3")
+    if nl >= 3:
+        ctx.close("poly_exact", q(lambda x: (x - m) ** 4, dist), 3 * v * v, (1e-10, 1e-10), cls=cls + ":deg4")
+    ctx.cell({k_: v_ for k_, v_ in case.items() if k_ != "seed"})
 
 
 def _poly(case, ctx, g):
